@@ -224,6 +224,18 @@ func (e *Env) lookup(name string) (TV, bool) {
 		if id, ok := e.fr.named[name]; ok {
 			return e.cellTV(id), true
 		}
+		// a local of this function that is not declared on the current path:
+		// an arbitrary value (clauses about it are normally guarded by a path condition)
+		if fn != nil {
+			for _, b := range fn.Blocks {
+				for _, in := range b.Instrs {
+					if a, ok := in.(*ssa.Alloc); ok && a.Comment == name {
+						t := a.Type().(*types.Pointer).Elem()
+						return TV{e.st.freshVal("undeclared."+name, t), t}, true
+					}
+				}
+			}
+		}
 	}
 	return TV{}, false
 }
@@ -605,9 +617,43 @@ func (e *Env) call(c *ECall) TV {
 		key := exprKey(c.Args[0])
 		return TV{st.comp("N!"+sanitize(key), SI), nil}
 	case "arg":
-		return e.callArg(c)
-	case "ret":
-		// ret(K, i [, j]): j-th result of the i-th call of K since the old state
+		return e.callArg(c, false)
+	case "darg":
+		// darg(K, i, name): argument of the i-th call of K made directly by this function
+		return e.callArgDirect(c)
+	case "dret":
+		key := exprKey(c.Args[0])
+		i := e.intTerm(c.Args[1])
+		j := 0
+		if len(c.Args) > 2 {
+			j = int(c.Args[2].(*EInt).V.Int64())
+		}
+		rt := e.x.eng.callRets[key]
+		if rt == nil || j >= len(rt) || sortOf(rt[j]) == "" {
+			sfail("no scalar result %d known for %q", j, key)
+		}
+		base := e.oldComp("D!"+sanitize(key), SI)
+		arr := st.comp(fmt.Sprintf("DR!%s!%d", sanitize(key), j), ArrSort(SI, sortOf(rt[j])))
+		return TV{Sel(arr, Add(base, i)), rt[j]}
+	case "lastcall":
+		// lastcall(K, name, v): absolute log index of the latest call of K whose argument `name` was v
+		key := exprKey(c.Args[0])
+		sig := e.x.eng.callSigs[key]
+		if sig == nil {
+			sfail("no call signature known for %q", key)
+		}
+		for j, n := range sig.names {
+			if n == exprKey(c.Args[1]) {
+				arr := st.comp(fmt.Sprintf("L!%s!%d", sanitize(key), j), ArrSort(SI, SI))
+				return TV{Sel(arr, e.intTerm(c.Args[2])), nil}
+			}
+		}
+		sfail("no argument %s in %q", exprKey(c.Args[1]), key)
+	case "argat":
+		// argat(K, i, name): argument of the call with absolute log index i
+		return e.callArg(c, true)
+	case "ret", "retat":
+		// ret(K, i [, j]): j-th result of the i-th call of K since the old state (retat: absolute log index)
 		key := exprKey(c.Args[0])
 		i := e.intTerm(c.Args[1])
 		j := 0
@@ -624,6 +670,9 @@ func (e *Env) call(c *ECall) TV {
 		}
 		base := e.oldComp("N!"+sanitize(key), SI)
 		arr := st.comp(fmt.Sprintf("R!%s!%d", sanitize(key), j), ArrSort(SI, s))
+		if c.Fn == "retat" {
+			return TV{Sel(arr, i), rt[j]}
+		}
 		return TV{Sel(arr, Add(base, i)), rt[j]}
 	case "fresh":
 		p := e.toTerm(e.eval(c.Args[0]))
@@ -662,11 +711,25 @@ func (e *Env) call(c *ECall) TV {
 				return TV{st.load(b, pt), pt}
 			}
 		}
-		sfail("no captured variable %s in %s", name, funcKey(fn))
+		// the closure does not capture such a variable: an arbitrary value, so that a clause
+		// demanding a particular captured value cannot be proved
+		return TV{e.st.fresh("nocapture."+name, SI), nil}
+	case "fvcell":
+		// fvcell("x"): the address of the variable x captured by the closure under verification
+		if e.fr == nil {
+			sfail("fvcell outside a closure")
+		}
+		name := exprKey(c.Args[0])
+		for i, fv := range e.fr.fn.FreeVars {
+			if fv.Name() == name {
+				return TV{e.fr.freeCells[i], fv.Type()}
+			}
+		}
+		sfail("no captured variable %s", name)
 	case "sends":
 		ch := e.toTerm(e.eval(c.Args[0]))
-		now := Sel(st.comp("CH!sent", ArrSort(SI, SI)), ch)
-		old := Sel(e.oldComp("CH!sent", ArrSort(SI, SI)), ch)
+		now := Sel(st.comp("CH!own", ArrSort(SI, SI)), ch)
+		old := Sel(e.oldComp("CH!own", ArrSort(SI, SI)), ch)
 		return TV{Sub(now, old), nil}
 	case "chlen":
 		ch := e.toTerm(e.eval(c.Args[0]))
@@ -861,7 +924,42 @@ func (e *Env) mapRel(m TV, k, v *Term) Term {
 	return And(Eq(hNow, Sto(hOld, *k, TTrue)), Eq(vNow, Sto(vOld, *k, *v)))
 }
 
-func (e *Env) callArg(c *ECall) TV {
+func (e *Env) callArgDirect(c *ECall) TV {
+	key := exprKey(c.Args[0])
+	i := e.intTerm(c.Args[1])
+	sig := e.x.eng.callSigs[key]
+	if sig == nil {
+		sfail("no call signature known for %q", key)
+	}
+	j := -1
+	switch a := c.Args[2].(type) {
+	case *EInt:
+		j = int(a.V.Int64())
+	case *EIdent:
+		for k, n := range sig.names {
+			if n == a.Name {
+				j = k
+			}
+		}
+	}
+	if j < 0 || j >= len(sig.types) {
+		sfail("bad argument selector for %q", key)
+	}
+	t := sig.types[j]
+	s := sortOf(t)
+	if s == "" {
+		s = SI
+	}
+	base := e.oldComp("D!"+sanitize(key), SI)
+	arr := e.st.comp(fmt.Sprintf("DA!%s!%d", sanitize(key), j), ArrSort(SI, s))
+	v := Sel(arr, Add(base, i))
+	if isStruct(t) {
+		return TV{&PRef{Ref: v, Root: t}, t}
+	}
+	return TV{v, t}
+}
+
+func (e *Env) callArg(c *ECall, abs bool) TV {
 	key := exprKey(c.Args[0])
 	i := e.intTerm(c.Args[1])
 	sig := e.x.eng.callSigs[key]
@@ -889,7 +987,11 @@ func (e *Env) callArg(c *ECall) TV {
 	}
 	base := e.oldComp("N!"+sanitize(key), SI)
 	arr := e.st.comp(fmt.Sprintf("A!%s!%d", sanitize(key), j), ArrSort(SI, s))
-	v := Sel(arr, Add(base, i))
+	idx := Add(base, i)
+	if abs {
+		idx = i
+	}
+	v := Sel(arr, idx)
 	if isStruct(t) {
 		return TV{&PRef{Ref: v, Root: t}, t}
 	}
